@@ -236,6 +236,11 @@ theorem tumorboost_stays_attached (rows out : List VRow) (h : boostStage true tr
       out[i].n = rows[i].n ∧ out[i].t.zyg = rows[i].t.zyg ∧ out[i].t.altFreq = boostRow rows[i] :=
   boostStage_attached rows out h
 
+/-- … and that value is the formula applied to the row's own tumour and normal frequencies -/
+theorem tumorboost_row_formula (r : VRow) (g : Geno) (t n : Rat) (hn : r.n = some g)
+    (ht : r.t.altFreq = .fin t) (hg : g.altFreq = .fin n) (h1 : t ≤ 1) :
+    boostRow r = ofOpt (tumorBoost t n) := boostRow_formula r g t n hn ht hg h1
+
 /-- purity rescaling inverts the mixture: t·p + n·(1 − p) = observed; a pure sample is unchanged -/
 theorem rescale_formula (p obs n : Rat) (hp : p ≠ 0) : rescaleBaf p obs n * p + n * (1 - p) = obs :=
   rescaleBaf_inverts p obs n hp
